@@ -202,6 +202,26 @@ CHECKS["C15"] = {
 }
 
 
+CHECKS["C17"] = {
+    "level": "model_checking",
+    "technique": "explicit-state BFS over operation sequences of the containers (state = contents x ring layout) and bounded-exhaustive argument enumeration of the primitives, vs reference models",
+    "level_text": "List: BFS over push/pop/shift/replace(in and out of range)/clear from initial capacities 1..4 to depth 10 (quick) / 14 (thorough), state = (contents, first, last, max_size); "
+                  "after every operation the return value, size, get(i) for all i <= size and the ring invariant are compared with an array deque. Table: BFS over add/addn/addk x 4 keys "
+                  "{a, A, b, a NUL} and clear to depth 6 / 8, with every lookup (get, get_c, get_mem, get_index) for 7 probe keys after every op, vs an array multimap incl. the key-ownership "
+                  "modes. Builder: all op sequences to depth 6 / 7. Strings: every (haystack, needle) pair of strings <= 4 over {a, A, b, NUL, SP} (6.1e5 pairs) through 35 compare / search / "
+                  "prefix / append / trim / lower-case functions. Numbers: every string <= 5 / 6 over {0 1 9 a f F SP HT + - ; x} plus 875 boundary literals around 2^31, 2^32, 2^63, 2^64 "
+                  "through the five numeric parsers vs 128-bit arithmetic (error instead of wrapping). Whole run repeated under ASan+UBSan.",
+    "level_note": "index_of(empty, empty) is not judged (position 0 vs not found are both defensible); compare results are judged by sign; the port parser is covered by C13. *lastlen of "
+                  "mem_to_pint is an internal cursor and not judged.",
+    "design_ref": "DESIGN.md §6 C17",
+    "rule": "BFS with state de-duplication for containers; odometer enumeration for primitives; distinct = container states + input classes",
+    "bounds": {"quick": "list depth 10, table depth 6, builder depth 6, strings <= 4, numbers <= 5", "thorough": "list depth 14, table depth 8, builder depth 7, numbers <= 6"},
+    "mc_explanation": "states = distinct (contents, layout) container states reached, transitions = operations executed on the real containers",
+    "assumptions": ["value domain {1,2,3} for list elements (contents x layout is what matters)"],
+    "jobs": lambda tier: [J("enum_c17", "plain"), J("enum_c17", "asan", ["--list-depth", "8", "--table-depth", "5", "--num-len", "4", "--str-len", "3"] if tier == "quick" else ["--list-depth", "10", "--table-depth", "6", "--num-len", "5"])],
+}
+
+
 def manifest():
     import json, os
     root = os.path.dirname(os.path.dirname(os.path.abspath(__file__)))
@@ -235,6 +255,7 @@ ENGINES = [
     {"name": "statemc", "path": "mc/statemc.c", "serves_properties": ["C01", "C05", "C09", "C10"], "kind_free_text": "E2: explicit-state BFS over token histories of the real parser, exact canonical state hashing"},
     {"name": "enum_c13", "path": "mc/enum_c13.c", "serves_properties": ["C13"], "kind_free_text": "E3: exhaustive string enumeration through htp_parse_uri with a partition checker"},
     {"name": "enum_c15", "path": "mc/enum_c15.c", "serves_properties": ["C15"], "kind_free_text": "E3: exhaustive strings x all partitions x decoder lattice through the urlencoded parser vs mc/ref.c"},
+    {"name": "enum_c17", "path": "mc/enum_c17.c", "serves_properties": ["C17"], "kind_free_text": "E4+E3: BFS over container op sequences and exhaustive primitive arguments vs reference models"},
     {"name": "cutmc", "path": "mc/cutmc.c", "serves_properties": ["C02", "C03", "C04", "C06", "C16"], "kind_free_text": "E1: stateless deviation-bounded explorer of segmentation / generated grammar on the real code"},
 ]
 
